@@ -18,6 +18,7 @@ import (
 	"strconv"
 	"strings"
 	"time"
+	"unicode/utf8"
 )
 
 // ---- named types (methods need them) ----
@@ -63,7 +64,9 @@ func (b TgTextByte) MarshalText() ([]byte, error) { return []byte("TB" + strconv
 
 type TgJSONByte uint8
 
-func (b TgJSONByte) MarshalJSON() ([]byte, error) { return []byte(`{"jb":` + strconv.Itoa(int(b)) + `}`), nil }
+func (b TgJSONByte) MarshalJSON() ([]byte, error) {
+	return []byte(`{"jb":` + strconv.Itoa(int(b)) + `}`), nil
+}
 
 type TgPlainByte uint8
 
@@ -123,6 +126,7 @@ type TgMutEmbB struct {
 	Y int
 	*TgMutEmbA
 }
+
 // recursion that goes through an embedding AND a named field: an item embeds its base, the base has links (slice, map,
 // pointer) whose element embeds a pointer to an item again
 type TgItem struct {
@@ -324,6 +328,9 @@ func tgRandString(r *rand.Rand) string {
 	return string(b)
 }
 
+// tgSeveralIllFormedKeys: set by C01, which knows the finding about their order
+var tgSeveralIllFormedKeys bool
+
 var tgFloats = []float64{0, math.Copysign(0, -1), 1, -1, 0.1, 1.5, 1e20, 1e21, 1e-6, 1e-7, 123456789.125, math.MaxFloat64, math.SmallestNonzeroFloat64, math.MaxFloat32, 3.4028235e38,
 	1.401298464324817e-45, 0.000001, 100000000000000000000, 1.7976931348623157e308, 5e-324, 2.2250738585072014e-308, 9007199254740993, 0.30000000000000004, 1e23}
 
@@ -429,9 +436,19 @@ func tgValue(r *rand.Rand, v reflect.Value, depth int, nilRate int, special bool
 		if depth > 5 {
 			n = 0
 		}
+		illFormed := false
 		for i := 0; i < n; i++ {
 			k := reflect.New(t.Key()).Elem()
 			tgValue(r, k, depth+1, 0, false)
+			if k.Kind() == reflect.String && !utf8.ValidString(k.String()) {
+				// two keys that are not valid UTF-8 can be written as the same replacement characters: an object with a
+				// repeated name, whose member order is C01's recorded finding MapKeyInvalidUTF8Order -- one such key per
+				// map everywhere, several only where C01 asks for them
+				if illFormed && !tgSeveralIllFormedKeys {
+					k.SetString(strings.ToValidUTF8(k.String(), "?"))
+				}
+				illFormed = true
+			}
 			e := reflect.New(t.Elem()).Elem()
 			tgValue(r, e, depth+1, nilRate, special)
 			m.SetMapIndex(k, e)
